@@ -219,8 +219,25 @@ func errClass(err error) string {
 	return "other"
 }
 
+// normalise keeps the case inside the domain the properties speak about: with the
+// harness's opt4 encoder at least one value has a non-empty encoding (if EVERY encoding
+// is empty the library stores no leaf array at all and answers nil, like encode.Dummy --
+// "no values", not a value).
+func (c *TrieCase) normalise() {
+	if c.Enc != "opt4" || len(c.Vals) == 0 {
+		return
+	}
+	for _, v := range c.Vals {
+		if len(v) > 0 {
+			return
+		}
+	}
+	c.Vals[len(c.Vals)-1] = []byte{0xde, 0xad, 0xbe, 0xef}
+}
+
 // Build calls the real NewSlimTrie.  Panics are results, not crashes.
 func (c *TrieCase) Build() (st *trie.SlimTrie, ec string, pan string) {
+	c.normalise()
 	defer func() {
 		if r := recover(); r != nil {
 			st, ec, pan = nil, "", fmt.Sprint(r)
@@ -241,6 +258,7 @@ func (c *TrieCase) Build() (st *trie.SlimTrie, ec string, pan string) {
 
 // NewEv is the trace event of a construction.
 func (c *TrieCase) NewEv(ec, pan string) Ev {
+	c.normalise()
 	vals := [][]int{}
 	for _, v := range c.Vals {
 		vals = append(vals, bints(v))
